@@ -13,17 +13,21 @@ open World
 
 theorem placed_of_WInv {w : World} {a : Aid} (hI : w.WInv = true) (ha : a < w.n)
     (hact : (w.stOf a).active = true) : Placed w a := by
-  simp only [WInv, Bool.and_eq_true, beq_iff_eq, List.all_eq_true, decide_eq_true_eq] at hI
-  obtain ⟨⟨⟨hlen, hst⟩, hcells⟩, hagents⟩ := hI
+  simp only [WInv, Bool.and_eq_true, List.all_eq_true] at hI
+  obtain ⟨⟨⟨hshape, hcells⟩, hagents⟩, _⟩ := hI
+  simp only [wShape, Bool.and_eq_true, beq_iff_eq] at hshape
+  obtain ⟨hlen, hst⟩ := hshape
   have hA := hagents a (by simpa [allAgents] using ha)
-  have hA1 := hA.1.1.1.1.1
+  simp only [wAgent, Bool.and_eq_true] at hA
+  have hA1 := hA.1.1.1.1.1.1
   rw [hact] at hA1
   simp only [Bool.not_true, Bool.false_or, Bool.and_eq_true, decide_eq_true_eq] at hA1
   refine ⟨hlen, by rw [hst]; exact ha, hA1.1, hA1.2, ?_⟩
   intro i hi
   by_cases hil : i < w.rows * w.cols
-  · have := (hcells i (by simpa [allCells] using hil)).1.2 a hi
-    exact this.2.symm
+  · have hc := hcells i (by simpa [allCells] using hil)
+    simp only [wCell, Bool.and_eq_true, List.all_eq_true, beq_iff_eq] at hc
+    exact (hc.1.2 a hi).2.symm
   · have : w.cells.getD i [] = [] := by
       simp only [List.getD_eq_getElem?_getD]
       rw [List.getElem?_eq_none (by omega)]; rfl
@@ -79,9 +83,9 @@ theorem C12_moves (w : World) (c : MoveCall) (hI : w.WInv = true) (ha : c.agent 
         simp only [Bool.and_eq_true] at hsup; exact hsup.2
       -- the orientation is one of the four directions (C03)
       have horient : 1 ≤ (w.stOf a).orient ∧ (w.stOf a).orient ≤ 4 := by
-        simp only [WInv, Bool.and_eq_true, List.all_eq_true, decide_eq_true_eq] at hI
-        have hA := hI.2 a (by simpa [allAgents] using ha)
-        simp only [hor, Bool.not_true, Bool.false_or, Bool.and_eq_true, decide_eq_true_eq] at hA
+        simp only [WInv, Bool.and_eq_true, List.all_eq_true] at hI
+        have hA := hI.1.2 a (by simpa [allAgents] using ha)
+        simp only [wAgent, hor, Bool.not_true, Bool.false_or, Bool.and_eq_true, decide_eq_true_eq] at hA
         exact hA.2
       obtain ⟨do_, hdo⟩ : ∃ d, crossTable ((w.stOf a).orient : Int) = some d := by
         have : (w.stOf a).orient = 1 ∨ (w.stOf a).orient = 2 ∨ (w.stOf a).orient = 3 ∨
